@@ -29,6 +29,9 @@ rc0, o0 = sh(demo_cmd, wt); ran['demo_without_patch'] = {'rc': rc0, 'tail': o0[-
 rc, o = sh(f'git apply {dst}/patch.diff', wt); ran['apply_rc'] = rc
 if not scratch_crate: os.remove(os.path.join(wt, demo_path))
 rc2, o2 = sh('cargo test --workspace --no-fail-fast --offline 2>&1 | grep -E "^test result|FAILED|^error"', wt)
+if 'failed to run `rustc`' in o2:      # transient under load (several cargo processes): once more
+    time.sleep(5)
+    rc2, o2 = sh('cargo test --workspace --no-fail-fast --offline 2>&1 | grep -E "^test result|FAILED|^error"', wt)
 passed = sum(int(l.split('ok. ')[1].split(' passed')[0]) for l in o2.splitlines() if l.startswith('test result: ok.'))
 ran['suite_with_patch'] = {'passed': passed, 'failed_lines': [l for l in o2.splitlines() if 'FAILED' in l or l.startswith('error')][:5]}
 install()
